@@ -310,19 +310,27 @@ def run_shard(ctx, spec):
     for li in range(nlists):
         src = codes if li % 10 == 0 else ok_codes or codes
         L = []
+        A = 'discipline' if li % 5 else 'event'          # the attribute / key name is a parameter of the sorter
         for _ in range(rnd.randrange(0, 14)):
             r = rnd.random()
             d = None if r < 0.08 else '' if r < 0.1 else rnd.choice(src)
             if rnd.random() < 0.3 and L:
-                d = (L[-1].get('discipline') if isinstance(L[-1], dict) else getattr(L[-1], 'discipline', None))
+                d = (L[-1].get(A) if isinstance(L[-1], dict) else getattr(L[-1], A, None))
             if rnd.random() < 0.5:
-                item = {'discipline': d, 'n': len(L)} if rnd.random() < 0.9 else {'n': len(L)}
+                item = {A: d, 'n': len(L)} if rnd.random() < 0.9 else {'n': len(L)}
+                if A != 'discipline' and rnd.random() < 0.5:
+                    item['discipline'] = rnd.choice(src)          # a decoy under the default name
             else:
                 item = Obj()
                 if rnd.random() < 0.9:
-                    item.discipline = d
+                    setattr(item, A, d)
             L.append(item)
-        attach.call(u.sort_by_discipline, L)
+        if A == 'discipline':
+            attach.call(u.sort_by_discipline, L)
+        elif li % 2:
+            attach.call(u.sort_by_discipline, L, A)
+        else:
+            attach.call(u.sort_by_discipline, L, attr=A)
     ctx.require('judged.total-on-all-six', 300)
     ctx.require('judged.sorter', 50)
     ctx.require('eval.text-pair', 1000)
